@@ -42,7 +42,10 @@ KID = {
     "style": "<style>rect { fill: red; }</style>",
 }
 PROLOG = {"none": "", "xmldecl": '<?xml version="1.0" encoding="UTF-8"?>\n', "comment": "<!-- prolog -->\n",
-          "pi": '<?xml-stylesheet href="s.css"?>\n', "doctype": "<!DOCTYPE svg>\n"}
+          "pi": '<?xml-stylesheet href="s.css"?>\n', "doctype": "<!DOCTYPE svg>\n",
+          "doctype-public": '<!DOCTYPE svg PUBLIC "-//W3C//DTD SVG 1.1//EN" "http://www.w3.org/Graphics/SVG/1.1/DTD/svg11.dtd">\n',
+          "doctype-subset": '<!DOCTYPE svg [\n<!ENTITY foo "bar">\n<!-- c -->\n]>\n',
+          "xmldecl-doctype": '<?xml version="1.0" encoding="utf-8" standalone="no"?>\n<!DOCTYPE svg>\n<!-- c -->\n'}
 
 
 ROOTATTRS = {"none": "", "xlink": ' xmlns:xlink="http://www.w3.org/1999/xlink"', "version": ' version="1.1"', "id-class": ' id="top" class="a b"',
